@@ -367,6 +367,26 @@ def run_fs(desc):
                     elif sa_ and i_ & 15:
                         out.nontrivial(('fs-reach', ti, t_, fl_))
 
+            # absolute names against absolute patterns whose globstar starts at the file system root (REALPATH: the part of the name a
+            # globstar took is looked up for symlinks, from wherever that part starts)
+            abs_names = [os.path.join(root, c_) for c_ in cands if not c_.endswith('/')]
+            for t_ in ('/**/a', '/**/*.txt', '/**', '/**/e/a', '/**/d/**', root + '/**/a', root + '/*/a', '/**/x1'):
+                for fl_ in (G.GLOBSTAR | G.REALPATH, G.GLOBSTAR | G.REALPATH | G.FOLLOW, G.GLOBSTARLONG | G.GLOBSTAR | G.REALPATH, G.GLOBSTAR | G.REALPATH | G.DOTGLOB):
+                    try:
+                        with util.watchdog(6):
+                            ma_ = G.globfilter(abs_names, t_, flags=fl_)
+                            mb_ = G.globfilter([os.fsencode(n_) for n_ in abs_names], enc(t_), flags=fl_)
+                    except util.HarnessBudget:
+                        out.stats['watchdog_skipped'] += 1
+                        continue
+                    out.evaluations += 1
+                    if [os.fsencode(x) for x in ma_] != mb_:
+                        d_ = sorted(set(os.fsencode(x) for x in ma_) ^ set(mb_))[0].decode('latin-1')
+                        out.violation({'mode': 'fs', 'api': 'globfilter(REALPATH) absolute', 'pattern': [t_.replace(root, '<root>')], 'flags': fl_, 'tree': ti,
+                                       'name': d_.replace(root, '<root>'), 'problem': 'bytes result differs from str result: globfilter with REALPATH, absolute names'},
+                                      size=len(t_) * 10, bucket=('fs-abs', t_.replace(root, '<root>')))
+                    elif ma_:
+                        out.nontrivial(('fs-abs', ti, t_.replace(root, '<root>'), fl_))
             # WcMatch with empty / missing / exclusion-only patterns: the bytes walk returns and skips what the str walk does
             for wfl_ in (0, WM.RECURSIVE, WM.RECURSIVE | WM.HIDDEN, WM.RECURSIVE | WM.HIDDEN | WM.SYMLINKS, WM.RECURSIVE | WM.FILEPATHNAME | WM.HIDDEN):
                 for fp_, ep_ in (('', ''), (None, None), ('*', ''), ('', 'd'), ('!a', ''), ('*|!a*', 'd|!d'), ('*.txt', None)):
@@ -489,7 +509,16 @@ def replay(case):
     if m == 'fs':
         with FC.built_tree(FS_TREES[case['tree']]) as (root, _removed):
             broot = os.fsencode(root)
-            if case['api'].startswith('globfilter'):
+            if case['api'] == 'globfilter(REALPATH) absolute':
+                abs_names = []
+                for b_, ds_, fs_ in os.walk(root, followlinks=True):
+                    abs_names += [os.path.join(b_, n_) for n_ in ds_ + fs_]
+                    if len(abs_names) > 400:
+                        break
+                t_ = case['pattern'][0].replace('<root>', root)
+                a = G.globfilter(abs_names, t_, flags=case['flags'])
+                b = G.globfilter([os.fsencode(n_) for n_ in abs_names], enc(t_), flags=case['flags'])
+            elif case['api'].startswith('globfilter'):
                 names = [case['name'], case['name'].rstrip('/'), case['name'].rstrip('/') + '/']
                 a = G.globfilter(names, case['pattern'], flags=case['flags'] | G.REALPATH, root_dir=root)
                 b = G.globfilter([os.fsencode(n) for n in names], enc(case['pattern']), flags=case['flags'] | G.REALPATH, root_dir=broot)
